@@ -73,9 +73,9 @@ theorem funcs_addImports (extra : List (String × String)) : ∀ items : List GI
 
 /-- the helper functions between the runtime and the compiled functions -/
 def midFuncs (env : Env) (file : AFile) : List GFunc :=
-  (GFile.mk (arrayRuntime (collectRuntimeTypes file).arrays)).funcs ++
-  ((GFile.mk (refRuntime (collectRuntimeTypes file).refs)).funcs ++
-  ((GFile.mk (tupleStructs (collectRuntimeTypes file).tuples)).funcs ++
+  (GFile.mk (arrayRuntime (collectRuntimeTypes env file).arrays)).funcs ++
+  ((GFile.mk (refRuntime (collectRuntimeTypes env file).refs)).funcs ++
+  ((GFile.mk (tupleStructs (collectRuntimeTypes env file).tuples)).funcs ++
   ((GFile.mk (genTypeDefinition env)).funcs ++
   ((GFile.mk (genDynTypeDefinitions env (collectDynRequirements file))).funcs ++
    (GFile.mk (genDynHelperFns env (collectDynRequirements file))).funcs))))
